@@ -31,7 +31,8 @@ KINDS = ['int', 'eof', 'unsupported', 'line_fail']
 
 
 class Session(object):
-    def __init__(self, year, forms, initial, answers, invalid_first):
+    def __init__(self, year, forms, initial, answers, invalid_first, layout='plain'):
+        self.layout = layout            # 'plain' | 'commented': the initial file as a hand-edited template with comment lines
         self.year = year
         self.forms = forms
         self.initial = initial          # dict
@@ -40,7 +41,23 @@ class Session(object):
 
     def desc(self):
         return {'year': self.year, 'forms': self.forms, 'initial': self.initial, 'answers': self.answers,
-                'invalid_first': sorted(self.invalid_first)}
+                'invalid_first': sorted(self.invalid_first), 'layout': self.layout}
+
+    def initial_text(self):
+        if self.layout == 'plain':
+            return solve.config_to_text(solve.config_from_dict(self.initial))
+        # what `habutax list-form-inputs` hands the user to fill in: explanatory comment lines around every key.
+        # habutax rewrites the file without them, so the written file is shorter than the one it replaces
+        by_sec = {}
+        for full, t in self.initial.items():
+            sec, key = full.split('.', 1)
+            by_sec.setdefault(sec, []).append((key, t))
+        out = ['# Input file for habutax - fill in the values after the equals signs', '#' * 78, '']
+        for sec in sorted(by_sec):
+            out += [f'[{sec}]', '# ' + 'values for this form; see the form instructions for details ' * 2]
+            for key, t in by_sec[sec]:
+                out += [f'# {key}: enter the amount or answer exactly as it is printed on the paper form', f'{key} = {t}', '']
+        return '\n'.join(out) + '\n'
 
 
 def invalid_for(year, name):
@@ -83,7 +100,7 @@ def run_session(sess, d, k=None, kind=None, initial_text=None):
         return t
 
     script = cli.FnScript(fn)
-    text = initial_text if initial_text is not None else solve.config_to_text(solve.config_from_dict(sess.initial))
+    text = initial_text if initial_text is not None else sess.initial_text()
     orig_value = hfields.TypedField.value
     orig_add = hsolver.Solver._add_form
     if kind == 'line_fail' and k is not None:
@@ -151,7 +168,7 @@ def check_after(ctx, sess, o, k, kind, d, case):
             return
     # re-run must not ask for them again
     have = set(sess.initial) | {n for n, _ in o.accepted}
-    sess2 = Session(sess.year, sess.forms, sess.initial, sess.answers, set())
+    sess2 = Session(sess.year, sess.forms, sess.initial, sess.answers, set(), sess.layout)
     o2 = run_session(sess2, d, initial_text=o.input_after)
     again = [n for n, t in o2.calls if n in have]
     if again:
@@ -195,7 +212,7 @@ def explore_session(ctx, sess, kinds, ks=None):
                     ctx.count('fault_did_not_propagate:' + kind)
         # the natural unsupported-form recipe: declaring marketplace insurance reaches Schedule 2
         if '1040.need_8962' not in sess.initial and 'unsupported' in kinds:
-            sess3 = Session(sess.year, sess.forms, sess.initial, dict(sess.answers, **{'1040.need_8962': 'yes'}), sess.invalid_first)
+            sess3 = Session(sess.year, sess.forms, sess.initial, dict(sess.answers, **{'1040.need_8962': 'yes'}), sess.invalid_first, sess.layout)
             o = run_session(sess3, d)
             ctx.case()
             ctx.count('fault:need_8962_recipe')
@@ -227,7 +244,17 @@ def shard(ctx, k_, payload):
                 if inp is not None and catalog.input_kind(inp) == 'str' and data.draw(st.integers(0, 4)) == 0:
                     answers[k] = data.draw(st.sampled_from(['100% sure', 'a (b', 'x\\y', '50 %', "O'Neil; #1", '12 Elm St #4', '#4', 'a ;b', 'k = v']))
         invalid_first = {k for k in keys if k not in initial and data.draw(st.integers(0, 5)) == 0}
-        sess = Session(sc['year'], sc['forms'], initial, answers, invalid_first)
+        layout = data.draw(st.sampled_from(['plain', 'commented']))
+        if data.draw(st.integers(0, 3)) == 0 and initial:
+            # a value in the file that the chosen year's input rejects (a file carried over from another year, a typo):
+            # the run stops with an error; the file must still hold it and everything else
+            cands = [k for k in sorted(initial) if invalid_for(sc['year'], k) is not None and cat.inputs.get(k) is not None
+                     and catalog.input_kind(cat.inputs[k]) in ('bool', 'int', 'float', 'enum')]
+            if cands:
+                bad_key = data.draw(st.sampled_from(cands))
+                initial[bad_key] = invalid_for(sc['year'], bad_key)
+                ctx.count('sessions_with_invalid_initial_value')
+        sess = Session(sc['year'], sc['forms'], initial, answers, invalid_first, layout)
         nn = explore_session(ctx, sess, KINDS)
         if len(ctx.samples) < 3:
             ctx.sample({'year': sess.year, 'forms': sess.forms, 'initial_keys': len(initial), 'input_calls_uninterrupted': nn,
@@ -246,7 +273,7 @@ def run(ctx):
 
 def replay(ctx, case):
     s = case['session']
-    sess = Session(s['year'], s['forms'], s['initial'], s['answers'], set(s['invalid_first']))
+    sess = Session(s['year'], s['forms'], s['initial'], s['answers'], set(s['invalid_first']), s.get('layout', 'plain'))
     kind = case['kind']
     if kind in KINDS:
         explore_session(ctx, sess, [kind], ks=[case['k']])
